@@ -31,9 +31,10 @@ def queries(tier):
     LO1, LO2, LO3 = (1, 3), (1, 4), (1, 5)      # "--" + 1..3 symbolic bytes  (TOKW must be >= 5)
     P2, P3 = (2, 2), (2, 3)                     # 'x' + symbolic bytes
     F2, F2S = (3, 3), (4, 3)                    # "-ab", "-aa"
-    cells = [(S0,), (S1,), (S2,), (LO1,), (LO2,), (P3,), (F2,), (F2S,), (S1, S1), (S2, S1), (LO1, LO1), (LO1, S2), (F2, S2)]
+    CA, CAB, CP = (5, 3), (5, 5), (6, 1)        # concrete "--a", "--a=b", "p"
+    cells = [(S0,), (S1,), (S2,), (LO1,), (LO2,), (P3,), (F2,), (F2S,), (CP, S2), (CP, LO1), (CP, CP, S1)]
     if tier == 'thorough':
-        cells += [(LO3,), (S2, S2), (LO2, LO1), (LO2, LO2), (S1, S1, S1), (LO1, S1, LO1), (F2S, LO1)]
+        cells += [(LO3,), (S1, S1)]
     for toks_ in cells:
         nt = len(toks_)
         ls = [t[1] for t in toks_]
@@ -47,5 +48,7 @@ def queries(tier):
             dd = dict(d, QKIND=qk, QIDX=qi, KLEN=kl)
             qs.append(dict(name='classify_%s_q%d_%d_%d' % (cname, qk, qi, kl), unit='cls', harness='h_classify.c', defs=dd, unwind=7, timeout=600, mem_gb=8, flags=FAST,
                            tv_runs=60, desc='classification of %d tokens (kind,length) %s; query kind %d index %d key length %d' % (nt, toks_, qk, qi, kl), bounds='token kinds/lengths %s' % (toks_,)))
-    qs.append(dict(name='exp3', unit='cls', harness='h_exp.c', defs={'L0': 3}, unwind=6, timeout=900, mem_gb=8, flags=FAST))
+    for l in (0, 1, 2):
+        qs.append(dict(name='unused_list%d' % l, unit='cls', harness='h_unused.c', defs={'LIST': l}, unwind=12, timeout=900, mem_gb=8, flags=FAST, tv_runs=300,
+                       desc='assert_none_unused after a symbolic subset of getters on fixed command line %d' % l, bounds='fixed command line, all subsets of getters'))
     return qs
